@@ -36,6 +36,9 @@ def build(vacuity=False):
     u.raw("    impl Connection {\n")
     for f in CALLEES:
         u.add_fn(ex[f"connection.{f}"], fnc4[f"connection.{f}"], mode="external", indent="        ")
+    # R8c: `keep_alive()` losing a `select!` of listen: stopped between two iterations (its loop invariant, proved in U4)
+    u.add_fn(vxlib.cancelled_item(ex["connection.keep_alive"], "keep_alive"), vxlib.cancelled_contract(fnc4["connection.keep_alive"]),
+             mode="external", indent="        ")
     u.add_fn(ex["connection.listen"], fnc["connection.listen"], vacuity=vacuity, indent="        ")
     u.raw("    }\n")
     # CookieResponsePacket::decode (real body, verified here)
